@@ -128,3 +128,89 @@ func VerifHarness_C41_exclusion() {
 		}
 	}
 }
+
+// VerifHarness_C41_shared: two endpoints that need per-packet hooks share an address; then one of
+// them is removed, stops needing hooks or changes its addresses: the shared address must stay in
+// the set exactly while some endpoint that needs hooks still has it.
+func VerifHarness_C41_shared() {
+	dp := &verifIPSetsDP{}
+	m := newFlowtableExclusionManager(dp, 4, 1000)
+	wepIDs := []*proto.WorkloadEndpointID{
+		{OrchestratorId: "k8s", WorkloadId: "ns/pod-a", EndpointId: "eth0"},
+		{OrchestratorId: "k8s", WorkloadId: "ns/pod-b", EndpointId: "eth0"},
+	}
+	hepID := &proto.HostEndpointID{EndpointId: "hep-1"}
+	mkWep := func(tag string, addrs []string) (*proto.WorkloadEndpoint, bool) {
+		ep := &proto.WorkloadEndpoint{Name: "cali1", Ipv4Nets: addrs}
+		needs := false
+		if verifBool(tag + ".dscp") {
+			ep.QosPolicies = []*proto.QoSPolicy{{Dscp: 10}}
+			needs = true
+		}
+		q := &proto.QoSControls{IngressMaxConnections: int64(verifU64(tag + ".in-conns")), EgressPacketRate: int64(verifU64(tag + ".out-pps"))}
+		ep.QosControls = q
+		needs = needs || q.IngressMaxConnections != 0 || q.EgressPacketRate != 0
+		return ep, needs
+	}
+	var in [3]bool // wep0, wep1, hep
+	var addrs [3][]string
+	ep0, n0 := mkWep("a", []string{"10.0.0.1/32"})
+	m.OnUpdate(&proto.WorkloadEndpointUpdate{Id: wepIDs[0], Endpoint: ep0})
+	in[0], addrs[0] = n0, []string{"10.0.0.1"}
+	if verifBool("complete-1") {
+		_ = m.CompleteDeferredWork()
+	}
+	second := 1 + verifChoose("second", 2)
+	if second == 1 {
+		ep1, n1 := mkWep("b", []string{"10.0.0.2/32", "10.0.0.1/32"})
+		m.OnUpdate(&proto.WorkloadEndpointUpdate{Id: wepIDs[1], Endpoint: ep1})
+		in[1], addrs[1] = n1, []string{"10.0.0.2", "10.0.0.1"}
+	} else {
+		h := &proto.HostEndpoint{Name: "eth0", ExpectedIpv4Addrs: []string{"192.168.0.1", "10.0.0.1"}}
+		d := verifBool("h.dscp")
+		if d {
+			h.QosPolicies = []*proto.QoSPolicy{{Dscp: 20}}
+		}
+		m.OnUpdate(&proto.HostEndpointUpdate{Id: hepID, Endpoint: h})
+		in[2], addrs[2] = d, []string{"192.168.0.1", "10.0.0.1"}
+	}
+	if verifBool("complete-2") {
+		_ = m.CompleteDeferredWork()
+	}
+	switch verifChoose("third", 4) {
+	case 0:
+		m.OnUpdate(&proto.WorkloadEndpointRemove{Id: wepIDs[0]})
+		in[0] = false
+	case 1:
+		if second == 1 {
+			m.OnUpdate(&proto.WorkloadEndpointRemove{Id: wepIDs[1]})
+		} else {
+			m.OnUpdate(&proto.HostEndpointRemove{Id: hepID})
+		}
+		in[second] = false
+	case 2: // the first endpoint no longer needs hooks
+		m.OnUpdate(&proto.WorkloadEndpointUpdate{Id: wepIDs[0], Endpoint: &proto.WorkloadEndpoint{Name: "cali1", Ipv4Nets: []string{"10.0.0.1/32"}}})
+		in[0] = false
+	default: // the first endpoint moves to another address
+		ep, n := mkWep("c", []string{"10.0.0.3/32"})
+		m.OnUpdate(&proto.WorkloadEndpointUpdate{Id: wepIDs[0], Endpoint: ep})
+		in[0], addrs[0] = n, []string{"10.0.0.3"}
+	}
+	verifAssert("shared/complete-no-error", m.CompleteDeferredWork() == nil)
+	want := map[string]bool{}
+	for i := range in {
+		if in[i] {
+			for _, a := range addrs[i] {
+				want[a] = true
+			}
+		}
+	}
+	got := map[string]bool{}
+	for _, a := range dp.members {
+		got[a] = true
+		verifAssert("shared/only-addresses-of-endpoints-that-need-hooks", want[a])
+	}
+	for a := range want {
+		verifAssert("shared/every-address-of-an-endpoint-that-needs-hooks", got[a])
+	}
+}
